@@ -133,10 +133,11 @@ def observe (s : App) : List String :=
   let pool := s!"POOL {s.bonded} {s.notBonded} {s.supply}"
   let par := s!"PAR {s.params.unbond} {s.params.maxVals} {s.params.maxEntries} {s.params.hist} {s.params.denom} {s.params.minComm}"
   let sigs := s.infos.map (fun (k, i) => s!"SIG {k} {i.start} {i.idx} {i.missed} {i.jailedUntil} {if i.tomb then 1 else 0}")
-  let qry := "QRY -1:err" ++ String.join ((List.range NOPS).map (fun op =>
-    match s.getVal op with
-    | some _ => s!" {op}:{s.lastPower op}"
-    | none => s!" {op}:err"))
+  let qry := "QRY" ++ String.join (([none] ++ (List.range NOPS).map some).map (fun (t : Option Nat) =>
+    let name := match t with | none => "-1" | some op => toString op
+    match s.queryPower t with
+    | some p => s!" {name}:{p}"
+    | none => s!" {name}:err"))
   vals ++ [tot, idx, ubq, pend, updc, pool, par] ++ sigs ++ ["AUTH 1", qry]
 
 def txrStr : TxR → String
